@@ -280,10 +280,16 @@ func (r *Runner) handlerCtx(ctx context.Context, kind handlerKind, pos syntax.Po
 }
 
 func (r *Runner) out(s string) {
+	if r.stdout == nil {
+		return // e.g. Params("-o") given to New before StdIO
+	}
 	io.WriteString(r.stdout, s)
 }
 
 func (r *Runner) outf(format string, a ...any) {
+	if r.stdout == nil {
+		return // e.g. Params("-o") given to New before StdIO
+	}
 	fmt.Fprintf(r.stdout, format, a...)
 }
 
